@@ -109,6 +109,24 @@ partial def parseXml (j : Json) : Except String Xml := do
   let cs ← (← getArr j "c").toList.mapM parseXml
   return .node (chars t) cs
 
+/-- attributed element: {"t": tag, "a": [[name, value]] (optional), "x": text (optional), "c": [children]} -/
+partial def parseXmlA (j : Json) : Except String XmlA := do
+  let t ← getStr j "t"
+  let attrs ← match optField j "a" with
+    | none => pure []
+    | some v => do
+      let a ← v.getArr?
+      a.toList.mapM (fun kv => do
+        let p ← kv.getArr?
+        match p.toList with
+        | [k, w] => do let ks ← k.getStr?; let ws ← w.getStr?; pure (chars ks, chars ws)
+        | _ => throw "attribute: [name, value] expected")
+  let x ← match optField j "x" with
+    | none => pure ""
+    | some v => v.getStr?
+  let cs ← (← getArr j "c").toList.mapM parseXmlA
+  return .node (chars t) attrs (chars x) cs
+
 /-- op `c08.odf` {"isZip", "manifest": null | {"text", "tree": null | xml}} ↦ {"enc": bool} -/
 def odfOp (j : Json) : Except String Json := do
   let isZip ← getBool j "isZip"
@@ -118,17 +136,21 @@ def odfOp (j : Json) : Except String Json := do
       let text ← getStr v "text"
       let tree ← match optField v "tree" with
         | none => pure none
-        | some t => do let x ← parseXml t; pure (some x)
+        | some t => do let x ← parseXmlA t; pure (some x)
       pure (some (chars text, tree))
-  return Json.mkObj [("enc", Json.bool (isOdfEncrypted K ⟨isZip, m⟩))]
+  return Json.mkObj [("enc", Json.bool (isOdfEncryptedA K isZip m))]
 
 /-- op `c08.epub` {"names": [str], "enc": null | xml} ↦ {"enc": bool} -/
 def epubOp (j : Json) : Except String Json := do
   let names ← (← getArr j "names").toList.mapM (fun n => n.getStr?)
   let x ← match optField j "enc" with
     | none => pure none
-    | some t => do let x ← parseXml t; pure (some x)
-  return Json.mkObj [("enc", Json.bool (isEpubEncrypted K ⟨names.map chars, x⟩))]
+    | some t => do let x ← parseXmlA t; pure (some x)
+  let algs := match x with
+    | some t => (t.attrValues (chars "Algorithm")).map String.ofList
+    | none => []
+  return Json.mkObj [("enc", Json.bool (isEpubEncryptedA K (names.map chars) x)),
+                     ("algs", Json.arr (algs.map Json.str).toArray)]
 
 /-- op `c08.pdf` {"isEnc": bool, "dec": null | nat} ↦ {"rej": bool} -/
 def pdfOp (j : Json) : Except String Json := do
